@@ -15,7 +15,7 @@ def check(ctx, rep):
         "the right model.")
     rep.declined = ["job code that swallows CancelledError (T9)"]
     rep.trusted = ["T1 asyncio.wait does not cancel its argument when cancelled", "T3", "T9"]
-    runrules.exit_discipline(ctx, rep, "R11.1", None, "R11.1")
+    runrules.exit_discipline(ctx, rep, "R11.1", "R11.1", "R11.1")
     runrules.tidy_shape(ctx, rep, "R11.1")
     shutrules.bounded_then_cancel(ctx, rep, "R11.1", "R11.1r")
     shutrules.cancellation_edges(ctx, rep, "R11.2")
